@@ -256,39 +256,50 @@ func (e *c09Env) ruleChoke() {
 	if pi < 0 || fn.Signature.Results().Len() != 2 {
 		panic(kit.AnchorError{Msg: "findPiece(pe *peer.Peer) (*myPiece, bool) expected"})
 	}
-	pe := fn.Params[pi]
-	notChoking := e.peerFieldFalse(fn, e.fPeerChoking, pe)
 	n := 0
-	for _, r := range returnsOf(fn) {
-		v, b := r.Results[0], kit.Canon(r.Results[1])
-		if kit.Canon(v).IsNil() {
-			continue
-		}
-		n++
-		key := e.k.key(fn, "return piece, allowedFast")
-		unchoked := notChoking.Before(r)
-		af := e.flow(c09AllowedFast, fn, v, pe).Before(r)
-		if !unchoked && !af && !e.flow(c09MayRequest, fn, v, pe).Before(r) {
-			c.Bad("R09.2", key, posOf(r), "findPiece can return piece %s while %s.PeerChoking may be true and the piece is not known to be in its allowed-fast set: a request to a choking peer", kit.Canon(v), pe.Name())
-			continue
-		}
-		s := e.subj(v)
-		flagFromSet := b.IsCallTo(e.ssHas) && len(b.Args) == 2 && b.Args[0].IsField(e.fRecvAF) && b.Args[0].Base() != nil && b.Args[0].Base().V == pe &&
-			b.Args[1].IsField(e.fMPPiece) && s.is(b.Args[1].Base())
-		switch {
-		case b.IsConstBool(true) && !af:
-			c.Bad("R09.2", key, posOf(r), "findPiece reports allowedFast=true for piece %s that is not taken from %s.ReceivedAllowedFast: the downloader would keep requesting it after a choke", kit.Canon(v), pe.Name())
-		case b.IsConstBool(true):
-			c.OK("R09.2", key, posOf(r), "allowedFast=true: piece %s ranges over %s.ReceivedAllowedFast", kit.Canon(v), pe.Name())
-		case b.IsConstBool(false):
-			c.OK("R09.2", key, posOf(r), "allowedFast=false; %s holds at the return", c09Why(unchoked, af))
-		case flagFromSet:
-			c.OK("R09.2", key, posOf(r), "%s holds at the return; flag is ReceivedAllowedFast.Has of the returned piece", c09Why(unchoked, af))
-		default:
-			c.Bad("R09.2", key, posOf(r), "allowed-fast flag %s of the returned piece is neither a constant nor ReceivedAllowedFast.Has(<returned piece>.Piece)", b)
+	// check examines the piece-returning returns of fn (findPiece, or a
+	// function findPiece delegates a whole branch to: `return p.helper(pe)`
+	// hands on both results of a callee with the same result shape, whose own
+	// returns are then the instances).
+	var check func(fn *ssa.Function, pe *ssa.Parameter, depth int)
+	check = func(fn *ssa.Function, pe *ssa.Parameter, depth int) {
+		notChoking := e.peerFieldFalse(fn, e.fPeerChoking, pe)
+		for _, r := range returnsOf(fn) {
+			v, b := r.Results[0], kit.Canon(r.Results[1])
+			if kit.Canon(v).IsNil() {
+				continue
+			}
+			if callee, cpe := e.delegatedReturn(r, pe); callee != nil && depth < 2 {
+				check(callee, cpe, depth+1)
+				continue
+			}
+			n++
+			key := e.k.key(fn, "return piece, allowedFast")
+			unchoked := notChoking.Before(r)
+			af := e.flow(c09AllowedFast, fn, v, pe).Before(r)
+			if !unchoked && !af && !e.flow(c09MayRequest, fn, v, pe).Before(r) {
+				c.Bad("R09.2", key, posOf(r), "%s can return piece %s while %s.PeerChoking may be true and the piece is not known to be in its allowed-fast set: a request to a choking peer", c09ShortName(fn), kit.Canon(v), pe.Name())
+				continue
+			}
+			s := e.subj(v)
+			flagFromSet := b.IsCallTo(e.ssHas) && len(b.Args) == 2 && b.Args[0].IsField(e.fRecvAF) && b.Args[0].Base() != nil && b.Args[0].Base().V == ssa.Value(pe) &&
+				b.Args[1].IsField(e.fMPPiece) && s.is(b.Args[1].Base())
+			switch {
+			case b.IsConstBool(true) && !af:
+				c.Bad("R09.2", key, posOf(r), "%s reports allowedFast=true for piece %s that is not taken from %s.ReceivedAllowedFast: the downloader would keep requesting it after a choke", c09ShortName(fn), kit.Canon(v), pe.Name())
+			case b.IsConstBool(true):
+				c.OK("R09.2", key, posOf(r), "allowedFast=true: piece %s ranges over %s.ReceivedAllowedFast", kit.Canon(v), pe.Name())
+			case b.IsConstBool(false):
+				c.OK("R09.2", key, posOf(r), "allowedFast=false; %s holds at the return", c09Why(unchoked, af))
+			case flagFromSet:
+				c.OK("R09.2", key, posOf(r), "%s holds at the return; flag is ReceivedAllowedFast.Has of the returned piece", c09Why(unchoked, af))
+			default:
+				c.Bad("R09.2", key, posOf(r), "allowed-fast flag %s of the returned piece is neither a constant nor ReceivedAllowedFast.Has(<returned piece>.Piece)", b)
+			}
 		}
 	}
-	c.Floor("R09.2", "piece-returning returns of findPiece", n, 5)
+	check(fn, fn.Params[pi], 0)
+	c.Floor("R09.2", "piece-returning returns of findPiece (and of the functions it delegates a branch to)", n, 5)
 
 	// request emission
 	reqBlocks := c.FuncObj("internal/piecedownloader", "(*PieceDownloader).RequestBlocks")
@@ -611,4 +622,46 @@ func c09OwnedBy(c *kit.Ctx, root *ssa.Function) map[*ssa.Function]bool {
 		}
 	}
 	return owned
+}
+
+// delegatedReturn recognises `return p.g(pe)`: both results of the return
+// are the two results of one call, in the same block with nothing but the
+// extractions in between, to a picker function with a body and the
+// (*myPiece, bool) result shape, which is given the same peer. It returns
+// the callee and its peer parameter.
+func (e *c09Env) delegatedReturn(r *ssa.Return, pe *ssa.Parameter) (*ssa.Function, *ssa.Parameter) {
+	if len(r.Results) != 2 {
+		return nil, nil
+	}
+	x0, ok0 := r.Results[0].(*ssa.Extract)
+	x1, ok1 := r.Results[1].(*ssa.Extract)
+	if !ok0 || !ok1 || x0.Tuple != x1.Tuple || x0.Index != 0 || x1.Index != 1 {
+		return nil, nil
+	}
+	call, ok := x0.Tuple.(*ssa.Call)
+	if !ok || call.Block() != r.Block() {
+		return nil, nil
+	}
+	callee := call.Call.StaticCallee()
+	if callee == nil || callee.Blocks == nil || !inPkg(callee, e.c, c09PP) || callee.Signature.Results().Len() != 2 || !e.isMyPiecePtr(callee.Signature.Results().At(0).Type()) {
+		return nil, nil
+	}
+	cpi := e.peerParam(callee)
+	if cpi < 0 || cpi >= len(call.Call.Args) || call.Call.Args[cpi] != ssa.Value(pe) {
+		return nil, nil
+	}
+	after := false
+	for _, ins := range r.Block().Instrs {
+		if ins == ssa.Instruction(call) {
+			after = true
+			continue
+		}
+		if !after || ins == ssa.Instruction(r) {
+			continue
+		}
+		if _, isX := ins.(*ssa.Extract); !isX {
+			return nil, nil
+		}
+	}
+	return callee, callee.Params[cpi]
 }
